@@ -17,7 +17,13 @@ import (
 
 // c04PureKey: structural identity of a pure expression (comparisons of
 // lengths, constants and SSA values).
-func c04PureKey(v ssa.Value, depth int) string {
+func c04PureKey(v ssa.Value, depth int) string { return c04PureKeySub(v, depth, nil) }
+
+// c04PureKeySub: like c04PureKey with the callee's parameters replaced by the caller's arguments.
+func c04PureKeySub(v ssa.Value, depth int, sub map[ssa.Value]ssa.Value) string {
+	if w, ok := sub[v]; ok {
+		return c04PureKeySub(w, depth, nil)
+	}
 	if depth > 6 {
 		return fmt.Sprintf("v%p", v)
 	}
@@ -25,25 +31,27 @@ func c04PureKey(v ssa.Value, depth int) string {
 	case *ssa.Const:
 		return "k(" + x.String() + ")"
 	case *ssa.BinOp:
-		return "(" + c04PureKey(x.X, depth+1) + x.Op.String() + c04PureKey(x.Y, depth+1) + ")"
+		return "(" + c04PureKeySub(x.X, depth+1, sub) + x.Op.String() + c04PureKeySub(x.Y, depth+1, sub) + ")"
 	case *ssa.UnOp:
 		if x.Op == token.NOT {
-			return "!" + c04PureKey(x.X, depth+1)
+			return "!" + c04PureKeySub(x.X, depth+1, sub)
 		}
 	case *ssa.Call:
 		if builtinName(x) == "len" && len(x.Call.Args) == 1 {
-			return "len(" + c04PureKey(x.Call.Args[0], depth+1) + ")"
+			return "len(" + c04PureKeySub(x.Call.Args[0], depth+1, sub) + ")"
 		}
 	case *ssa.Convert:
-		return c04PureKey(x.X, depth+1)
+		return c04PureKeySub(x.X, depth+1, sub)
 	case *ssa.ChangeType:
-		return c04PureKey(x.X, depth+1)
+		return c04PureKeySub(x.X, depth+1, sub)
 	}
 	return fmt.Sprintf("v%p", v)
 }
 
 // c04CondKey normalises a branch condition to (key, polarity).
-func c04CondKey(cond ssa.Value, taken bool) (string, bool) {
+func c04CondKey(cond ssa.Value, taken bool) (string, bool) { return c04CondKeySub(cond, taken, nil) }
+
+func c04CondKeySub(cond ssa.Value, taken bool, sub map[ssa.Value]ssa.Value) (string, bool) {
 	for {
 		u, ok := cond.(*ssa.UnOp)
 		if !ok || u.Op != token.NOT {
@@ -52,9 +60,9 @@ func c04CondKey(cond ssa.Value, taken bool) (string, bool) {
 		cond, taken = u.X, !taken
 	}
 	if bo, ok := cond.(*ssa.BinOp); ok && bo.Op == token.NEQ {
-		return "(" + c04PureKey(bo.X, 0) + "==" + c04PureKey(bo.Y, 0) + ")", !taken
+		return "(" + c04PureKeySub(bo.X, 0, sub) + "==" + c04PureKeySub(bo.Y, 0, sub) + ")", !taken
 	}
-	return c04PureKey(cond, 0), taken
+	return c04PureKeySub(cond, 0, sub), taken
 }
 
 type c04Path struct {
@@ -253,6 +261,10 @@ func c04NStepRule(p *Prog, r *Report, rule string, fn *ssa.Function, call *ssa.C
 			good = append(good, pa)
 		case a1 == a0:
 			bad = append(bad, pa)
+		case c04SingleViaHelper(p, pa, a0, a1):
+			// start and end are two results of one helper call, and on some success return of the
+			// helper, not excluded by the decisions of this path, they are the same value (N alone)
+			bad = append(bad, pa)
 		default:
 			// a-b/step: the end is another parsed value (second result-bearing call); anything else is unclassified
 			if ex, ok := a1.(*ssa.Extract); ok {
@@ -313,4 +325,65 @@ func c04NStepRule(p *Prog, r *Report, rule string, fn *ssa.Function, call *ssa.C
 		r.Undecide("%s: no path with a single start value and a step was recognised (end is neither the start value nor the field maximum)", construct)
 	}
 	return true
+}
+
+// c04SingleViaHelper: a0 and a1 are results #j and #i of the same call of a
+// module function h, and h has a success return on which both results are the
+// same value, whose dominating conditions (with h's parameters replaced by the
+// call's arguments) do not contradict the decisions taken on the caller's path.
+func c04SingleViaHelper(p *Prog, pa *c04Path, a0, a1 ssa.Value) bool {
+	e0, ok0 := a0.(*ssa.Extract)
+	e1, ok1 := a1.(*ssa.Extract)
+	if !ok0 || !ok1 || e0.Tuple != e1.Tuple {
+		return false
+	}
+	call, ok := e0.Tuple.(*ssa.Call)
+	if !ok {
+		return false
+	}
+	h := staticCallee(call)
+	if h == nil || !p.InModule(h) || len(h.Blocks) == 0 {
+		return false
+	}
+	sub := map[ssa.Value]ssa.Value{}
+	for i, par := range h.Params {
+		if i < len(call.Call.Args) {
+			sub[par] = call.Call.Args[i]
+		}
+	}
+	decided := map[string]bool{}
+	for i, ifi := range pa.conds {
+		k, pol := c04CondKey(ifi.Cond, pa.truth[i])
+		decided[k] = pol
+	}
+	errIdx := c04ErrResult(h)
+	for _, b := range h.Blocks {
+		if len(b.Instrs) == 0 {
+			continue
+		}
+		ret, ok := b.Instrs[len(b.Instrs)-1].(*ssa.Return)
+		if !ok || e0.Index >= len(ret.Results) || e1.Index >= len(ret.Results) {
+			continue
+		}
+		if errIdx >= 0 && !isNilConst(ret.Results[errIdx]) {
+			continue
+		}
+		if ret.Results[e0.Index] != ret.Results[e1.Index] {
+			continue
+		}
+		if _, isK := ret.Results[e0.Index].(*ssa.Const); isK {
+			continue
+		}
+		contradicted := false
+		for _, dc := range c04DomConds(b) {
+			k, pol := c04CondKeySub(dc.If.Cond, dc.Branch, sub)
+			if prev, seen := decided[k]; seen && prev != pol {
+				contradicted = true
+			}
+		}
+		if !contradicted {
+			return true
+		}
+	}
+	return false
 }
